@@ -152,11 +152,10 @@ func runC19(t testing.TB, c C19Case) (key, what string, classes []string) {
 			time.Sleep(time.Until(lastPlain.Add(time.Duration(cy.SecondCtrl) * time.Millisecond)))
 			second = time.Now()
 			p.Type("\x0f")
-			if !p.WaitFor(1500*time.Millisecond, func(o string) bool { return strings.Count(o, againMsg) > nAgain }) {
-				// it may have un-muted already if we were late; judged below
-				if strings.Count(p.Output(), unmuteMsg) == nUnmuteBefore {
-					return "second-ctrl-o-not-answered", desc + ": Ctrl+O while muted was not answered with 'Already muted'", classes
-				}
+			// the statement does not require any particular answer to a repeated
+			// Ctrl+O; whether "Already muted" shows up is recorded, not judged
+			if p.WaitFor(1500*time.Millisecond, func(o string) bool { return strings.Count(o, againMsg) > nAgain }) {
+				classes = append(classes, "already-muted-announced")
 			}
 			classes = append(classes, "ctrl-o-while-muted")
 		}
